@@ -195,7 +195,7 @@ class Ctx:
         for key, what, data in self.violations:
             rp = write_replay(self.pid, key, what, data)
             print(f"VIOLATION property={self.pid} replay={rp}")
-            print(f"  key={key}\n  what={what}")
+            print(f"  key={key}\n  what={str(what)[:600]}")
             rc = 1
         summary = {k: v for k, v in cov.items() if isinstance(v, (int, float, bool))}
         print(f"[{self.pid}] tier={self.tier} seed={self.seed} wall={wall:.1f}s {summary}")
